@@ -49,6 +49,8 @@ def gen_cases(rng, tier):
     route = rng.choice(["api_class", "potable", "potable", "cli" if i % 10 == 0 else "potable"])
     groute = "api" if route.startswith("api") else "potable"
     m = spec.gen_eam_model(rng, "adp", groute, target="eam_adp")
+    if groute == "api":
+      m["api_containers"] = rng.choice([None, None, "tuple", "generator", "map"])
     cases.append({"kind": "adp", "route": route, "model": m, "style": rng.randrange(1 << 30)})
   for i in range(n):
     m = spec.gen_eam_model(rng, "eam", "api", nspecies=1, target="setfl", underspecified=0)
@@ -69,6 +71,8 @@ def gen_cases(rng, tier):
     else:
       m = spec.gen_eam_model(rng, kind, groute, target="excel_eam" if kind == "eam" else "excel_eam_fs",
                              grids={"nr": rng.choice([2, 3, 5, 9, 21, 60]), "nrho": rng.choice([2, 3, 5, 9, 30])})
+      if groute == "api":
+        m["api_containers"] = rng.choice([None, None, "tuple", "generator", "map"])
     cases.append({"kind": "excel", "route": route, "model": m, "style": rng.randrange(1 << 30)})
   return cases
 
@@ -181,7 +185,11 @@ def run_adp(case, ctx, rng):
       data = routes.write_tab(tab)
       # the setfl file of the same model (same objects)
       from atsim.potentials.eam_tabulation import SetFL_EAMTabulation
-      setfl = routes.write_tab(SetFL_EAMTabulation(tab.potentials, tab.eam_potentials, tab.cutoff, tab.nr, tab.cutoff_rho, tab.nrho))
+      if route == "api_class" and model.get("api_containers") in ("generator", "map"):
+        p2, e2 = routes.eam_api_objects(model)[:2]    # a one-shot iterable has served its one write: same model, fresh objects
+      else:
+        p2, e2 = tab.potentials, tab.eam_potentials
+      setfl = routes.write_tab(SetFL_EAMTabulation(p2, e2, tab.cutoff, tab.nr, tab.cutoff_rho, tab.nrho))
     else:
       text = emit.model_text(model, emit.Style(rng))
       d1 = potable_out(ctx, model, "cli", random.Random(0))
@@ -250,7 +258,7 @@ def run_funcfl(case, ctx, rng):
     ctx.count("out_of_domain")
     return
   try:
-    pots, eams = routes.eam_api_objects(model)[:2]
+    pots, eams = routes.vary_containers(model, routes.eam_api_objects(model)[:2])
     out = io.StringIO()
     ap.writeFuncFL(nrho, drho_f, nr, dr_f, eams, pots, out, case["title"])
     text = out.getvalue()
@@ -402,5 +410,9 @@ def run_excel(case, ctx, rng):
 def run_case(case, ctx):
   ctx.cls("kind:" + case["kind"])
   ctx.cls("route:" + case["route"])
+  if case["kind"] == "funcfl":
+    case["model"]["api_containers"] = [None, "tuple"][case["style"] % 2]   # writeFuncFL indexes its lists: sequences only
+  if case["model"].get("api_containers"):
+    ctx.cls("api_containers:" + case["model"]["api_containers"])
   rng = random.Random(case["style"])
   return {"gulp": run_gulp, "adp": run_adp, "funcfl": run_funcfl, "excel": run_excel}[case["kind"]](case, ctx, rng)
